@@ -5,7 +5,7 @@ CONSTANTS
   NG = 3
   NSlots = 2
   MaxOps = 1
-  Modes = {"locked", "dcl"}
+  Modes = {"locked"}
   Forced = FALSE
   OpSet = {"SetValue", "GetOrCreate", "Value", "RemoveValue"}
 INVARIANTS ShardTypeOK Refines ContentAgrees OrphanEmpty LenAtRest
